@@ -2,7 +2,7 @@ use nom::{
     bytes::complete::tag,
     character::complete::{char, i128},
     combinator::{map, opt},
-    multi::{fold_many0, many0},
+    multi::many0,
     sequence::{preceded, terminated},
     Parser,
 };
@@ -10,7 +10,7 @@ use nom::{
 use crate::{
     input::Input,
     intermediate::{constraints::*, types::*, *},
-    lexer::{asn1_type, error::ErrorTree, parameterization},
+    lexer::{asn1_type, parameterization},
 };
 
 use super::{common::*, error::ParserResult};
@@ -75,10 +75,11 @@ fn enumeral(input: Input<'_>) -> ParserResult<'_, EnumeralInput<'_>> {
     .parse(input)
 }
 
+#[cfg(test)]
 fn enumerals<'a>(
     start_index: usize,
-) -> impl Parser<Input<'a>, Output = Vec<Enumeral>, Error = ErrorTree<'a>> {
-    fold_many0(
+) -> impl Parser<Input<'a>, Output = Vec<Enumeral>, Error = super::error::ErrorTree<'a>> {
+    nom::multi::fold_many0(
         enumeral,
         Vec::<Enumeral>::new,
         move |mut acc, (name, index, _, comments)| {
@@ -92,15 +93,67 @@ fn enumerals<'a>(
     )
 }
 
+/// Assigns enumeration values as specified in ITU-T X.680 (02/2021) 20.3 - 20.6:
+/// Root items without an explicit number get successive integers starting with 0,
+/// skipping the numbers used explicitly in the root. Extension items without an
+/// explicit number get the smallest value that is not used in the root and that is
+/// greater than the values of all preceding extension items.
+fn number_enumerals(
+    root: Vec<EnumeralInput<'_>>,
+    extension: Option<Vec<EnumeralInput<'_>>>,
+) -> (Vec<Enumeral>, Option<Vec<Enumeral>>) {
+    let mut used: Vec<i128> = root.iter().filter_map(|(_, index, _, _)| *index).collect();
+    let mut next = 0;
+    let root_enumerals = root
+        .into_iter()
+        .map(|(name, index, _, comments)| {
+            let index = index.unwrap_or_else(|| {
+                while used.contains(&next) {
+                    next += 1;
+                }
+                used.push(next);
+                next
+            });
+            Enumeral {
+                name: name.into(),
+                description: comments.map(|c| c.into()),
+                index,
+            }
+        })
+        .collect();
+    let mut next = 0;
+    let ext_enumerals = extension.map(|ext| {
+        ext.into_iter()
+            .map(|(name, index, _, comments)| {
+                let index = index.unwrap_or_else(|| {
+                    while used.contains(&next) {
+                        next += 1;
+                    }
+                    next
+                });
+                used.push(index);
+                next = next.max(index + 1);
+                Enumeral {
+                    name: name.into(),
+                    description: comments.map(|c| c.into()),
+                    index,
+                }
+            })
+            .collect()
+    });
+    (root_enumerals, ext_enumerals)
+}
+
 fn enumerated_body(input: Input<'_>) -> ParserResult<'_, EnumeralBody> {
     in_braces(|input| {
-        let (input, root_enumerals) = enumerals(0).parse(input)?;
+        let (input, root_enumerals) = many0(enumeral).parse(input)?;
         let (input, ext_marker) = opt(terminated(
             extension_marker,
             skip_ws_and_comments(opt(char(COMMA))),
         ))
         .parse(input)?;
-        let (input, ext_enumerals) = opt(enumerals(root_enumerals.len())).parse(input)?;
+        let (input, ext_enumerals) = opt(many0(enumeral)).parse(input)?;
+        let (root_enumerals, ext_enumerals) = number_enumerals(root_enumerals, ext_enumerals);
         Ok((input, (root_enumerals, ext_marker, ext_enumerals)))
     })
     .parse(input)
